@@ -1,29 +1,5 @@
 // ---- the char-wise leftmost search over the double array is a function of the sparse NFA alone (char-wise counterpart of ghost_lm_bw.rs) ----
-spec fn nfa_nd_lm<V>(n: NfaBuilder<char, V>, s: int, c: char) -> int
-    decreases nfa_depth(n, s)
-    when nfa_tree(n) && nfa_links(n, true) && 0 <= s < n.states@.len() && s != 1
-{
-    if nfa_edges(n, s).contains_key(c) { nfa_edges(n, s)[c] as int }
-    else if s == 0 || n.states@[s].fail == 1 { 0 }
-    else { nfa_nd_lm(n, n.states@[s].fail as int, c) }
-}
-proof fn lemma_nd_lm_range<V>(n: NfaBuilder<char, V>, s: int, c: char)
-    requires nfa_tree(n), nfa_links(n, true), 0 <= s < n.states@.len(), s != 1,
-    ensures 0 <= nfa_nd_lm(n, s, c) < n.states@.len(), nfa_nd_lm(n, s, c) != 1,
-    decreases nfa_depth(n, s),
-{
-    if nfa_edges(n, s).contains_key(c) { }
-    else if s == 0 || n.states@[s].fail == 1 { }
-    else { lemma_nd_lm_range(n, n.states@[s].fail as int, c); }
-}
-proof fn lemma_nd_lm_no_edge<V>(n: NfaBuilder<char, V>, s: int, c: char)
-    requires nfa_tree(n), nfa_links(n, true), 0 <= s < n.states@.len(), s != 1,
-        forall|t: int| 0 <= t < n.states@.len() ==> !(#[trigger] nfa_edges(n, t)).contains_key(c),
-    ensures nfa_nd_lm(n, s, c) == 0,
-    decreases nfa_depth(n, s),
-{
-    if s != 0 && n.states@[s].fail != 1 { lemma_nd_lm_no_edge(n, n.states@[s].fail as int, c); }
-}
+//@include ghost_lm_nfa_cw.rs
 proof fn lemma_image_live_lm<V>(n: NfaBuilder<char, V>, st: Seq<State>, table: Seq<u32>, idmap: Seq<u32>, w: Wit, s: int)
     requires cw_encodes(st, table, n, idmap), nfa_tree(n), cw_ranked(st, true, w), 0 <= s < n.states@.len(), s != 1,
     ensures w.live.contains(idmap[s] as int),
@@ -99,29 +75,6 @@ proof fn lemma_sim_delta_lm_cw<V>(n: NfaBuilder<char, V>, st: Seq<State>, table:
     }
 }
 
-// the leftmost scan over the sparse NFA, over the characters of the text (same shape as cwl_scan over the array)
-spec fn nfa_cwl_scan<V>(n: NfaBuilder<char, V>, s: int, last: Option<(nat, nat)>, chars: Seq<char>, p: nat) -> Option<(nat, nat)>
-    decreases chars.len()
-{
-    if chars.len() == 0 { last } else {
-        let c = chars[0];
-        let p2 = (p + c.len_utf8()) as nat;
-        let t = nfa_nd_lm(n, s, c);
-        if t == 0 { if last.is_some() { last } else { nfa_cwl_scan(n, 0, None, chars.skip(1), p2) } }
-        else if opt_n(n.states@[t].output_pos) != 0 { nfa_cwl_scan(n, t, Some((opt_n(n.states@[t].output_pos), p2)), chars.skip(1), p2) }
-        else { nfa_cwl_scan(n, t, last, chars.skip(1), p2) }
-    }
-}
-spec fn nfa_cwl_stream<V>(n: NfaBuilder<char, V>, hs: &str, pos: nat) -> Seq<Match<V>>
-    decreases str_blen(hs) - pos
-{
-    match nfa_cwl_scan(n, 0, None, tail_chars(hs, pos as int), pos) {
-        None => Seq::empty(),
-        Some(p) => if p.1 <= pos || p.1 > str_blen(hs) || p.0 == 0 || p.0 > n.outputs@.len() { Seq::empty() } else {
-            seq![mk_match(n.outputs@[p.0 - 1], p.1)] + nfa_cwl_stream(n, hs, p.1)
-        },
-    }
-}
 proof fn lemma_cwl_scan_sim<V>(n: NfaBuilder<char, V>, st: Seq<State>, table: Seq<u32>, asz: u32, idmap: Seq<u32>, s: int, last: Option<(nat, nat)>, chars: Seq<char>, p: nat)
     requires cw_encodes(st, table, n, idmap), nfa_tree(n), nfa_links(n, true), cw_wf(st, table, true), mapper_covers(n, table, asz),
         0 <= s < n.states@.len(), s != 1,
